@@ -23,7 +23,8 @@ RULE = ("rendered feature documents (rules, outlines with several examples table
 ASSUMPTIONS = [
     "entities are: feature, rule, scenario outline, a single examples row, scenario (as in the statement); any other "
     "line belongs to the nearest entity starting above it; lines above the feature line select the feature",
-    "locations of one file are given consecutively (interleaving files is outside the statement)",
+    "a file that is addressed again after other files forms a further group: each group is a feature of its own in the run, "
+    "selected by the locations of that group",
     "list-file lines have no leading blanks (outside the statement)",
 ]
 REQUIRED = {"line.selects_entity_scenarios": {"quick": 8000, "thorough": 500000},
@@ -227,6 +228,12 @@ def run(spec, mon):
                             spec_list.append((dd, [0]))
                         else:
                             spec_list.append((dd, [rng.randint(1, dd.nlines + 1) for _ in range(rng.choice([1, 2]))]))
+                    if rng.random() < 0.3:
+                        # the first file is addressed AGAIN after the others (A:3 B:4 A:10): a further group of its own, selected
+                        # on its own -- the scenarios picked by the earlier group stay picked
+                        dd0 = spec_list[0][0]
+                        spec_list.append((dd0, [rng.randint(1, dd0.nlines + 1)]))
+                        mon.seen("location_list_shape", "file_revisited")
                     locs = []
                     texts = []
                     for dd, ls in spec_list:
